@@ -10,10 +10,8 @@ import (
 	"testing"
 
 	"github.com/attestantio/dirk/rules"
-	"github.com/attestantio/dirk/services/accountmanager"
-	"github.com/attestantio/dirk/services/lister"
-	"github.com/attestantio/dirk/services/walletmanager"
 	standardrules "github.com/attestantio/dirk/rules/standard"
+	"github.com/attestantio/dirk/services/accountmanager"
 	standardaccountmanager "github.com/attestantio/dirk/services/accountmanager/standard"
 	accountmanagerhandler "github.com/attestantio/dirk/services/api/grpc/handlers/accountmanager"
 	listerhandler "github.com/attestantio/dirk/services/api/grpc/handlers/lister"
@@ -21,9 +19,10 @@ import (
 	walletmanagerhandler "github.com/attestantio/dirk/services/api/grpc/handlers/walletmanager"
 	"github.com/attestantio/dirk/services/api/grpc/interceptors"
 	"github.com/attestantio/dirk/services/checker"
-	"github.com/attestantio/dirk/services/fetcher"
 	staticchecker "github.com/attestantio/dirk/services/checker/static"
+	"github.com/attestantio/dirk/services/fetcher"
 	memfetcher "github.com/attestantio/dirk/services/fetcher/mem"
+	"github.com/attestantio/dirk/services/lister"
 	standardlister "github.com/attestantio/dirk/services/lister/standard"
 	syncmaplocker "github.com/attestantio/dirk/services/locker/syncmap"
 	"github.com/attestantio/dirk/services/process"
@@ -31,6 +30,7 @@ import (
 	"github.com/attestantio/dirk/services/signer"
 	standardsigner "github.com/attestantio/dirk/services/signer/standard"
 	localunlocker "github.com/attestantio/dirk/services/unlocker/local"
+	"github.com/attestantio/dirk/services/walletmanager"
 	standardwalletmanager "github.com/attestantio/dirk/services/walletmanager/standard"
 	"github.com/rs/zerolog"
 	e2wtypes "github.com/wealdtech/go-eth2-wallet-types/v2"
@@ -208,11 +208,10 @@ func NewInstance(s *Sched, name string, cfg InstCfg) (*Instance, error) {
 
 // Close shuts the instance down cleanly (store closed).
 func (i *Instance) Close() {
-	if i.Closed {
-		return
+	if !i.Closed {
+		i.Closed = true
+		_ = i.Rules.Close(context.Background())
 	}
-	i.Closed = true
-	_ = i.Rules.Close(context.Background())
 	i.cancel()
 }
 
